@@ -52,6 +52,22 @@ def effect_oracle(op, err, before, ex):
             if got != want:
                 probs.append(f"build_reaction_from_string({op['eq']!r}) left the stoichiometry {a[op['r']]['st']}, the equation says "
                              f"{ {k: canon.num(v) for k, v in want.items()} }")
+    if op["op"] == "add_boundary" and err is None:
+        # documented: the reaction `EX_/DM_/SK_<metabolite>` with the metabolite at -1 and bounds (default lb, default ub) — (0, default ub) for a
+        # demand — where the defaults are the *configured* ones
+        pre = {"exchange": "EX_", "demand": "DM_", "sink": "SK_"}[op["type"]]
+        rid = pre + op["m"]
+        cfg = op.get("cfg") or ["-1000", "1000"]
+        want_lb = "0" if op["type"] == "demand" else cfg[0]
+        if rid not in a:
+            probs.append(f"add_boundary({op['m']}, {op['type']}) succeeded but {rid} is not in the model")
+        elif rid not in b:
+            got = a[rid]
+            if {k: F(v) for k, v in got["st"].items()} != {op["m"]: F(-1)}:
+                probs.append(f"add_boundary({op['m']}, {op['type']}): stoichiometry of {rid} is {got['st']}, documented {{{op['m']}: -1}}")
+            if F(got["lb"]) != F(want_lb) or F(got["ub"]) != F(cfg[1]):
+                probs.append(f"add_boundary({op['m']}, {op['type']}) under the configured default bounds {cfg}: bounds of {rid} are ({got['lb']}, {got['ub']}), "
+                             f"documented ({want_lb}, {cfg[1]})")
     return probs
 
 
